@@ -329,8 +329,9 @@ def session_job(case):
 
 
 def split_job(job):
-    sc, plan, threads = job
+    sc, plan, threads = job[:3]
     w1, w2 = ws.mkws('spl'), ws.mkws('sgl')
+    scen.set_names(job[3] if len(job) > 3 else 0)
     try:
         opts = [('-R' if pt.get('rev') else '') for pt in sc['series']]
         scen.materialise(w1, sc['tree0'], sc['series'], opts)
@@ -350,6 +351,7 @@ def split_job(job):
             probs.append(('exit', 'last exit status %s vs %s' % (last, rc2)))
         return probs
     finally:
+        scen.set_names(0)
         ws.rmws(w1); ws.rmws(w2)
 
 
@@ -377,11 +379,11 @@ def check_c09(prop, tier):
             sc = json.loads(json.loads(line))
             if sc['outs'][0]['out']['adversarial']:
                 continue
-            sjobs.append((sc, [['1'], ['-a']] if li % 3 == 0 else ([['2'], ['-a']] if li % 3 == 1 else [['1'], ['1'], ['-a']]), 1 + li % 2))
+            sjobs.append((sc, [['1'], ['-a']] if li % 3 == 0 else ([['2'], ['-a']] if li % 3 == 1 else [['1'], ['1'], ['-a']]), 1 + li % 2, (li // 3) % 2))
         with Pool(12) as pool:
             souts = pool.map(split_job, sjobs, chunksize=8)
         nb = 0
-        for (sc, plan, threads), probs in zip(sjobs, souts):
+        for (sc, plan, threads, _nv), probs in zip(sjobs, souts):
             for cat, msg in probs:
                 nb += 1
                 res.violation('split:' + cat, 'a push split into %s differs from the single push -a: %s' % (plan, msg), {'tree0': sc['tree0'], 'series': sc['series'], 'plan': plan, 'threads': threads})
